@@ -604,7 +604,7 @@ impl<'p, C: SimCfg> World<'p, C> {
                     continue;
                 }
                 w.last_recv = t;
-                if w.running && w.notified && !w.disconnected {
+                if w.running && w.notified && !w.disconnected && !w.disc_sent {
                     w.notified = false;
                     expect.push(Ev::Resumed { addr: x });
                 }
@@ -629,7 +629,7 @@ impl<'p, C: SimCfg> World<'p, C> {
                 }
             }
             if w.running && !w.disconnected {
-                if !w.notified && w.last_recv + notify < t {
+                if !w.notified && !w.disc_sent && w.last_recv + notify < t {
                     w.notified = true;
                     expect.push(Ev::Interrupted { addr: x, timeout_ms: (timeout.saturating_sub(notify) / 1000) as u128 });
                 }
